@@ -75,9 +75,9 @@ def bound_reaction(rng, rx, pvals):
     return rx
 
 def gen_network(rng, kinds=("massaction",) + tuple(HILL), nrx=(1, 4), nsp=(1, 5), allow_delay=False, max_order=4,
-                named=True, integer_state=False, general_pool=None, bounded=False):
+                named=True, integer_state=False, general_pool=None, bounded=False, species_pool=None):
     n = rng.randint(*nsp)
-    species = rng.sample(SPECIES_POOL, n)
+    species = rng.sample(species_pool or SPECIES_POOL, n)
     order = list(species); rng.shuffle(order)
     rxs = []; pvals = {}
     for _ in range(rng.randint(*nrx)):
@@ -98,10 +98,16 @@ def reaction_tuple(rx):
 
 def build_model(spec, initialize=True, rules=True):
     from bioscrape.types import Model
+    rl = [tuple(r) for r in spec.get("rules", [])] if rules else []
+    # spec["late_rules"] = k: the last k rules are added with create_rule AFTER the model has been constructed (and, with
+    # initialize=True, initialised) with the others -- a construction history, not a different model (seeded change S4_C09)
+    late = min(int(spec.get("late_rules", 0) or 0), len(rl))
     M = Model(species=list(spec["species"]), reactions=[reaction_tuple(r) for r in spec["reactions"]],
               parameters=list(spec["parameters"].items()),
-              rules=[tuple(r) for r in spec.get("rules", [])] if rules else [],
+              rules=rl[:len(rl) - late],
               initial_condition_dict=dict(spec["x0"]), initialize_model=initialize)
+    for r in rl[len(rl) - late:]: M.create_rule(*r)
+    if late and initialize: M.py_initialize()
     return M
 
 def term_tokens(term):
